@@ -402,6 +402,12 @@ func TestCheck(t *testing.T) {
 				d := vt.Dev("prop", "C07", "fs", kind, "op", strings.SplitN(mc.name, "(", 2)[0], "verdict", verdict, "clause", "misc")
 				d.Detail = fmt.Sprintf("%s %s: %s", kind, mc.name, res)
 				c.Report(d, Case{Kind: "misc", FS: kind, Idm: []string{mc.name}})
+				if verdict == "hang:loop" {
+					// the spinning goroutine still owns the scheduler: nothing else can be run in this process
+					c.Extra("aborted", "a call spins without returning; the shard stops here")
+					c.Finish()
+					os.Exit(1)
+				}
 			}
 			c.NonTrivial(vt.Hash64("misc", kind, mc.name))
 		}
